@@ -1,4 +1,5 @@
 #include <limits>
+#include <cmath>
 #include <symengine/printers/strprinter.h>
 
 namespace SymEngine
@@ -223,6 +224,10 @@ std::string print_double(double d)
     s.precision(std::numeric_limits<double>::digits10);
     s << d;
     auto str_ = s.str();
+    if (not std::isfinite(d)) {
+        // "inf", "-inf", "nan": no decimal point to add
+        return str_;
+    }
     if (str_.find(".") == std::string::npos
         and str_.find("e") == std::string::npos) {
         if (std::numeric_limits<double>::digits10 - str_.size() > 0) {
